@@ -284,7 +284,7 @@ def gate_tables(tier):
     # 5. subcircuit pattern simulation
     from cirbo.minimization import subcircuit as sc
 
-    for k in (2, 3):
+    for k in (2, 3, 4, 5, 6, 7, 8, 9) + (() if tier == 'quick' else (10, 11, 12)):
         if not hasattr(sc, '_generate_inputs_tt') or not hasattr(sc, '_PatternOperations'):
             skipped.append('subcircuit._PatternOperations / _generate_inputs_tt (private helpers not found)')
             break
@@ -308,7 +308,7 @@ def gate_tables(tier):
             for i in range(rows):
                 if ((p >> i) & 1) != ((i >> j) & 1):
                     fail('generate_inputs_tt', f'size {k} input {j} row {i}')
-    samples.append('_PatternOperations.eval_pattern: 11 names, all 2-input pattern tuples')
+    samples.append('_PatternOperations.eval_pattern: 11 names, all 2-input pattern tuples; leaf patterns and their complements for 3-9 (12) leaves')
 
     # 6. Tseytin clause templates, through the public transformation
     from cirbo.sat.cnf import tseytin_transformation
